@@ -162,7 +162,138 @@ Proof.
       * unfold drain_body in H. simpl in H.
         destruct (w_lost w); [|destruct (w_paused w) eqn:P; simpl in H]; inversion H; subst; simpl in I; auto;
           destruct I as [I|[]]; try discriminate. try (destruct (w_lost_exc _); discriminate).
-    + destruct st; simpl in H; try discriminate; inversion H; subst; simpl in I; destruct I as [I|[]]; try discriminate.
-      * inversion I; subst. right. eauto.
-      * destruct conn; discriminate.
+    + destruct st as [| |conn|]; [discriminate| |destruct conn|]; simpl in H; inversion H; subst; simpl in I;
+        destruct I as [I|[]]; try discriminate.
+      inversion I; subst. right. eauto.
+Qed.
+
+Lemma J_alive : forall a, J a -> a_buf a <> [] -> a_dead a = false.
+Proof. intros a Ja N. destruct (a_dead a) eqn:D; auto. exfalso. apply N. apply (j_dead a Ja D). Qed.
+
+Lemma lift_common : forall a1 l w' o, J a1 -> quiet l -> wfc_step (a_w a1) l = Some (w', o) ->
+  J (with_w w' a1) /\ (forall t, In (ODrain t ROk) o -> bytes_of t (a_buf a1) = 0).
+Proof.
+  intros a1 l w' o Ja Q H. destruct (wfc_quiet _ _ _ _ Q H) as [E1 [E2 E3]]. split.
+  - apply J_lift; auto.
+  - intros t I. destruct (drain_ok_cases _ _ _ _ _ Q H I) as [P|[f P]].
+    + rewrite (paused_false_empty a1 Ja P). reflexivity.
+    + eapply j_res; eauto.
+Qed.
+
+Lemma idle_not_result : forall a t u f, task (a_w a) t = Some TIdle -> task (a_w a) u = Some (TParked f FResult) -> (t =? u) = false.
+Proof. intros a t u f H1 H2. destruct (t =? u) eqn:E; auto. apply Nat.eqb_eq in E. subst. congruence. Qed.
+
+Lemma J_grow : forall a t n, J a -> task (a_w a) t = Some TIdle -> a_dead a = false -> 0 < n ->
+  J (maybe_pause (with_buf (a_buf a ++ [(t, n)]) a)).
+Proof.
+  intros a t n Ja Ht D Hn.
+  assert (P : Forall pos (a_buf a ++ [(t, n)])).
+  { apply Forall_app; split; [apply (j_pos a Ja)|constructor; auto]. }
+  rewrite renorm_grow; auto.
+  - apply J_renorm; auto. intros u f Hu. rewrite bytes_app, (j_res a Ja u f Hu), (idle_not_result a t u f Ht Hu). reflexivity.
+  - destruct (a_buf a); discriminate.
+Qed.
+
+Lemma J_write : forall a t n k, J a -> task (a_w a) t = Some TIdle -> J (tr_write t n k a).
+Proof.
+  intros a t n k Ja Ht. unfold tr_write. destruct (a_dead a) eqn:D; simpl; auto.
+  destruct (n =? 0) eqn:N; auto. destruct (a_buf a) as [|x r] eqn:B.
+  - destruct (n - Nat.min k n =? 0) eqn:M; auto.
+    replace [(t, n - Nat.min k n)] with (a_buf a ++ [(t, n - Nat.min k n)]) by (rewrite B; reflexivity).
+    apply J_grow; auto. lia.
+  - change (J (maybe_pause (with_buf ((x :: r) ++ [(t, n)]) a))). rewrite <- B. apply J_grow; auto. lia.
+Qed.
+
+Lemma J_sendto : forall a t n ok, J a -> task (a_w a) t = Some TIdle -> J (tr_sendto t n ok a).
+Proof.
+  intros a t n ok Ja Ht. unfold tr_sendto. destruct (a_dead a) eqn:D; simpl; auto.
+  destruct (n =? 0) eqn:N; auto. destruct (a_buf a) as [|x r] eqn:B.
+  - destruct ok; auto.
+    replace [(t, n)] with (a_buf a ++ [(t, n)]) by (rewrite B; reflexivity). apply J_grow; auto. lia.
+  - change (J (maybe_pause (with_buf ((x :: r) ++ [(t, n)]) a))). rewrite <- B. apply J_grow; auto. lia.
+Qed.
+
+Lemma J_writelines : forall a t n k, J a -> c_wl_pauses (a_cfg a) = true -> task (a_w a) t = Some TIdle ->
+  J (tr_writelines t n k a).
+Proof.
+  intros a t n k Ja WL Ht. unfold tr_writelines. destruct (a_dead a) eqn:D; simpl; auto.
+  destruct (n =? 0) eqn:N; auto.
+  assert (Hn : 0 < n) by lia.
+  assert (P : Forall pos (a_buf a ++ [(t, n)])).
+  { apply Forall_app; split; [apply (j_pos a Ja)|constructor; auto]. }
+  assert (CF : forall x, a_cfg (maybe_resume x) = a_cfg x).
+  { intros x. unfold maybe_resume. destruct (_ && _); reflexivity. }
+  destruct (k =? 0) eqn:K.
+  - simpl. rewrite WL. apply J_grow; auto.
+  - rewrite CF. simpl. rewrite WL. apply J_renorm; auto.
+    + apply take_pos; auto.
+    + intros u f Hu. assert (L := bytes_take_le u (a_buf a ++ [(t, n)]) k).
+      rewrite bytes_app, (j_res a Ja u f Hu), (idle_not_result a t u f Ht Hu) in L. lia.
+Qed.
+
+Lemma J_dead_state : forall a w, J a -> J (mkAd (a_cfg a) [] (a_ppaused a) true w).
+Proof.
+  intros a w Ja. constructor; simpl; auto; try discriminate. apply (j_cfg a Ja).
+Qed.
+
+Lemma J_step : forall a l a' o, J a -> ok_label (a_cfg a) l -> ad_step a l = Some (a', o) ->
+  J a' /\ a_cfg a' = a_cfg a /\ (forall t, In (ODrain t ROk) o -> bytes_of t (a_buf a') = 0).
+Proof.
+  intros a l a' o Ja OK H.
+  assert (CFW : forall t n k, a_cfg (tr_write t n k a) = a_cfg a).
+  { intros. unfold tr_write, maybe_pause. destruct (_ || _); auto. destruct (a_buf a); [destruct (_ =? 0); auto|];
+      simpl; destruct (_ && _); reflexivity. }
+  assert (CFS : forall t n k, a_cfg (tr_sendto t n k a) = a_cfg a).
+  { intros. unfold tr_sendto, maybe_pause. destruct (_ || _); auto. destruct (a_buf a); [destruct k; auto|];
+      simpl; destruct (_ && _); reflexivity. }
+  assert (CFL : forall t n k, a_cfg (tr_writelines t n k a) = a_cfg a).
+  { intros. unfold tr_writelines, maybe_pause, maybe_resume. destruct (_ || _); auto.
+    destruct (k =? 0); simpl; repeat (destruct (_ && _); simpl); destruct (c_wl_pauses _); simpl;
+      repeat (destruct (_ && _); simpl); reflexivity. }
+  destruct l as [t n k|t n k|t n ok|k| | |e|t|f|t]; simpl in H.
+  - destruct (get_task t (a_w a)) as [[| |]|] eqn:G; try discriminate.
+    destruct (wfc_step (a_w (tr_write t n k a)) (WDrain t)) as [[w' o']|] eqn:S; [|discriminate]. inversion H; subst.
+    assert (J1 : J (tr_write t n k a)) by (apply J_write; auto).
+    destruct (lift_common _ _ _ _ J1 I S) as [A B]. split; auto.
+  - destruct (get_task t (a_w a)) as [[| |]|] eqn:G; try discriminate.
+    destruct (wfc_step (a_w (tr_writelines t n k a)) (WDrain t)) as [[w' o']|] eqn:S; [|discriminate]. inversion H; subst.
+    assert (J1 : J (tr_writelines t n k a)) by (apply J_writelines; auto).
+    destruct (lift_common _ _ _ _ J1 I S) as [A B]. split; auto.
+  - destruct (get_task t (a_w a)) as [[| |]|] eqn:G; try discriminate.
+    destruct (wfc_step (a_w (tr_sendto t n ok a)) (WDrain t)) as [[w' o']|] eqn:S; [|discriminate]. inversion H; subst.
+    assert (J1 : J (tr_sendto t n ok a)) by (apply J_sendto; auto).
+    destruct (lift_common _ _ _ _ J1 I S) as [A B]. split; auto.
+  - destruct (a_buf a) as [|x r] eqn:B; [discriminate|].
+    destruct ((0 <? k) && (k <=? buf_size (x :: r))); [|discriminate].
+    assert (D : a_dead a = false) by (apply J_alive; auto; congruence).
+    assert (J1 : J (maybe_resume (with_buf (take k (x :: r)) a))).
+    { rewrite renorm_shrink; auto; [|congruence|apply take_pos; rewrite <- B; apply (j_pos a Ja)].
+      apply J_renorm; auto.
+      - apply take_pos. rewrite <- B. apply (j_pos a Ja).
+      - intros u f Hu. assert (L := bytes_take_le u (x :: r) k). rewrite <- B, (j_res a Ja u f Hu) in L. lia. }
+    assert (C1 : a_cfg (maybe_resume (with_buf (take k (x :: r)) a)) = a_cfg a).
+    { unfold maybe_resume. destruct (_ && _); reflexivity. }
+    destruct (a_buf (maybe_resume (with_buf (take k (x :: r)) a))) eqn:B1.
+    + destruct (w_closing (a_w (maybe_resume (with_buf (take k (x :: r)) a)))); inversion H; subst.
+      * split; [|split; [exact C1|intros t []]]. unfold set_dead, with_w. simpl. rewrite B1.
+        rewrite <- C1. apply J_dead_state; auto.
+      * split; [auto|split; [exact C1|intros t []]].
+    + inversion H; subst. split; [auto|split; [exact C1|intros t []]].
+  - destruct (a_dead a); [discriminate|]. inversion H; subst. split; [apply J_dead_state; auto|split; [reflexivity|intros t []]].
+  - destruct (w_closing (a_w a)); [discriminate|]. inversion H; subst. split; [|split; [destruct (a_buf a); reflexivity|intros t []]].
+    destruct (a_buf a) eqn:B.
+    + unfold set_dead, with_w. simpl. rewrite <- B at 1.
+      assert (X := J_dead_state a (wfc_closing true (a_w a)) Ja). rewrite B. exact X.
+    + apply J_lift; auto.
+  - destruct (a_dead a) eqn:D; simpl in H; [|discriminate]. destruct (w_lost (a_w a)); simpl in H; [discriminate|].
+    inversion H; subst. split; [|split; [reflexivity|intros t []]].
+    assert (B : a_buf a = []) by (apply (j_dead a Ja D)).
+    destruct Ja as [Jc Jd Jp Jpp Jw Jl Jr]. constructor; simpl; auto; try congruence.
+    intros t f _. rewrite B. reflexivity.
+  - unfold lift in H. destruct (wfc_step (a_w a) (WCancel t)) as [[w' o']|] eqn:S; [|discriminate]. inversion H; subst.
+    destruct (lift_common _ _ _ _ Ja I S) as [A B]. split; auto.
+  - unfold lift in H. destruct (wfc_step (a_w a) (WCallback f)) as [[w' o']|] eqn:S; [|discriminate]. inversion H; subst.
+    destruct (lift_common _ _ _ _ Ja I S) as [A B]. split; auto.
+  - unfold lift in H. destruct (wfc_step (a_w a) (WWake t)) as [[w' o']|] eqn:S; [|discriminate]. inversion H; subst.
+    destruct (lift_common _ _ _ _ Ja I S) as [A B]. split; auto.
 Qed.
